@@ -220,4 +220,15 @@ CHECKS = {
         abnormal_exit_is_violation=True,
         assumptions=HARNESS_TRUST + ["real-time run: the 40 s convergence budget is three orders of magnitude above the observed convergence time on loopback; a firing is reported as a violation"],
     ),
+    "C20": dict(
+        level="fault_enumeration",
+        rule=("E: every variant of every binding enumeration (enumerated through the generated From<c_int>, 0..1100) converted to the native type, and every native value (all 256 octets through the library's own from(u8) constructors for command status / function code / control code; exhaustive lists guarded by a compile-time exhaustive match for the rest) converted to the binding type: normalised Debug names equal, no two sources collapse into one target unless the target lacks the variant, identity on round trips where both directions exist; "
+              "S: struct conversions with distinct sentinels in every field (all 256 flag octets, three time qualities x boundary times, update options, seven measurement structs both ways, IIN1/IIN2 all 256 octets each, event buffer sizes, restart delay, application IIN 16 combinations, class-zero fields one at a time, every static x event variation x dead-band of the seven point configurations, CROB); "
+              "D: random add / remove / update2 / update_flags / get sequences applied through the crate-private binding entry points to one database and natively to another: same results, same get, same wire image"),
+        runs=[dict(check="c20", driver="driver_ffi", timeout_s=900)],
+        required=["variants_map_to_namesake", "round_trips_ok", "flags_ok", "timestamps_ok", "measurements_in_ok", "measurements_out_ok", "iin_ok", "differential_sequences_ok", "differential_image_octets", "conversion_Variation(in)", "conversion_CommandStatus(out)", "conversion_TaskType"],
+        thorough_scale=20.0,
+        abnormal_exit_is_violation=True,
+        assumptions=HARNESS_TRUST + ["'like-named' is decided on Debug names after removing case, underscores and payloads, with an explicit rename table (Unknown -> Nul for trip-close / operation codes that the binding cannot express)"],
+    ),
 }
